@@ -17,6 +17,7 @@ CONSTANTS
   CacheSize = 2
   SubCap = 2
   SeqDetail = FALSE
+  TsoDetail = FALSE
   Readers = {}
   ReadRevs = {0}
   MaxReads = 0
